@@ -399,3 +399,18 @@ func hFill(inst *portalwire.VerifHInstance, ins []c11ins) {
 }
 
 func (r *Rng) Pick2(xs []string) string { return xs[r.Intn(len(xs))] }
+
+// hTimeoutErr: the error of a live exchange is a timeout / cancellation (RPC timeout, uTP connect / read / idle timeout,
+// context deadline): on a loaded machine this says nothing about the code under test.
+func hTimeoutErr(err error) bool {
+	if err == nil {
+		return false
+	}
+	m := strings.ToLower(err.Error())
+	for _, k := range []string{"timeout", "timed out", "deadline", "canceled", "cancelled", "closed"} {
+		if strings.Contains(m, k) {
+			return true
+		}
+	}
+	return false
+}
